@@ -140,6 +140,28 @@ AlphaBounds == {Prop(0, h, r, s, 1) : h \in Residues, r \in RoundClasses, s \in 
                \cup {Dec(0, h, r, Q3, 1) : h \in {0, H63M, HMAX}, r \in {1, R63M, RMAX}}
                \cup {PSig(0, 0, h, 1) : h \in HeightClasses}
 
+(* ---- family "roundwin": the round window over the WHOLE range of rounds and reception times the gate distinguishes,
+   for the five roles that run consensus, on a fresh signer state (MaxAccepts = 0: every accept is a probe edge).
+   All messages are for slot 0; the reception time is e + 0.5 s after its start, e whole seconds.  Time points: every
+   boundary b of the round step function (end of rounds 1..11 of the round timer: 2, 4, ..., 16, 136, 256, 376 s) with
+   b-2, b-1, b, b+1 (i.e. 1.5 s and 0.5 s before, 0.5 s and 1.5 s after), the first seconds of the slot, the middle of
+   slow rounds, the last second of the previous slot (early), and both sides of the late-slot deadline of either TTL
+   class.  The last second of a slot (o = 11) is used only in slots 0..2 (property ClockRobust checks that this is
+   sound).  Rounds: 0 .. max+2 of the role (max 12: attester, aggregator; 6: proposer, sync committee, contribution),
+   which contains estimated-2 .. estimated+3 wherever that is not cut by the maximum; prepares for every role,
+   decided commits and leader proposals for the attester role. ---- *)
+RWTime(e) == T(e \div 12, e % 12)
+RWBoundSecs == {DeadlineMs(r) \div 1000 : r \in 1..11}
+RWNear(D) == {b + d : b \in RWBoundSecs, d \in D}
+RWPoints(E) == {RWTime(e) : e \in {x \in E : x >= 0 /\ (x % 12 # 11 \/ x < 36)}}
+RWEdges == {T(-1, 10), T(3, 10), T(4, 0), T(34, 10), T(35, 0)}
+TimesRoundWinQuick == RWPoints({0, 1, 60, 200} \cup RWNear({-2, -1, 0, 1})) \cup RWEdges
+TimesRoundWinThorough == RWPoints((0..60) \cup RWNear((-6)..6) \cup {12 * k + 5 : k \in 5..34} \cup {12 * k + 10 : k \in 5..34}) \cup RWEdges
+RWRounds(role) == 0..(MaxRound(role) + 2)
+AlphaRoundWin == UNION {{Prep(role, 0, r, 1) : r \in RWRounds(role)} : role \in 0..4}
+                 \cup {Dec(0, 0, r, Q3, 1) : r \in 1..13}
+                 \cup {Prop(0, 0, r, Leader(0, r), 1) : r \in 1..13}
+
 (* ---- N = 7 ---- *)
 AlphaSeven == DecBase \cup DecMut \cup {Prop(0, h, r, s, 1) : h \in {-1, 0}, r \in {1, 2}, s \in {1, 2, 7}}
 
